@@ -5,6 +5,7 @@ pub mod refmodel;
 pub mod ts;
 pub mod vsched;
 pub mod lworld;
+pub mod refidl;
 
 #[allow(non_camel_case_types, non_snake_case, dead_code, unused_imports)]
 pub mod org_verif_t {
